@@ -236,6 +236,7 @@ package graphql
 //@ func defaultResolveTypeFn
 //@   props C20 C04
 //@   nosafety
+//@   assigns nothing
 //@   opt callback.IsTypeOf=pure
 //@   at call PossibleTypes: assert arg1 == abstractType
 //@   loop 1 over lastresult("PossibleTypes")
@@ -1310,6 +1311,7 @@ package graphql
 //@ func fingerprintDocument
 //@   props C06
 //@   nosafety
+//@   opt strict=true
 // the key covers the WHOLE document (validation judges all of it): every other operation and every fragment
 // definition that was not hashed where it is spread is hashed too
 //@   loop 1 over doc.Definitions
